@@ -19,6 +19,8 @@ pub struct Outcome {
     pub result: Result<String, String>,
     pub image: Vec<u8>,
     pub final_pos: u64,
+    /// multi-call sessions: the result of every constituent call, in order
+    pub parts: Vec<(String, Result<String, String>)>,
 }
 
 impl Outcome {
@@ -50,7 +52,7 @@ fn finish<T>(h: Handle, r: Result<std::io::Result<T>, String>, digest: impl FnOn
         Ok(Err(e)) => Err(e.to_string()),
         Err(p) => Err(format!("PANIC {p}")),
     };
-    let o = Outcome { result, image: h.data(), final_pos: h.pos() };
+    let o = Outcome { result, image: h.data(), final_pos: h.pos(), parts: Vec::new() };
     (o, h)
 }
 
@@ -152,6 +154,23 @@ pub fn scenarios(include_heavy: bool) -> Vec<Scenario> {
                 finish(h, r, |_| "()".into())
             }) });
         }
+        // a directory above 4096 entries (buffer/size thresholds in the writer)
+        let big: Vec<SEntry> = (0..5000u64).map(|i| SEntry::new(i * 2, i * 7, 7, 1)).collect();
+        let e2 = big.clone();
+        v.push(Scenario { name: format!("dir-write-5000/{n}/sync"), is_async: false, role: Role::Writer, heavy: true, faults: true, run: Box::new(move |ch| {
+            let h = Handle::new(Vec::new(), ch).record_data();
+            let r = catch(|| to_lib_dir(&e2).to_writer(&mut h.sync(), c));
+            finish(h, r, |_| "()".into())
+        }) });
+        let e2 = big.clone();
+        // uncompressed + async means one poll_write per varint (20k calls): covered by the leaf-spill writers instead
+        if c != Compression::None {
+        v.push(Scenario { name: format!("dir-write-5000/{n}/async"), is_async: true, role: Role::Writer, heavy: true, faults: true, run: Box::new(move |ch| {
+            let h = Handle::new(Vec::new(), ch).record_data();
+            let r = catch(|| block_on(to_lib_dir(&e2).to_async_writer(&mut h.asyn(), c)));
+            finish(h, r, |_| "()".into())
+        }) });
+        }
         // ---- archive open + every lookup (library-written, and foreign with a leaf level)
         let l = small_logical(c);
         let lib_bytes = write_lib(&l, Api::Sync).expect("HARNESS: scenario archive must be writable");
@@ -198,6 +217,57 @@ pub fn scenarios(include_heavy: bool) -> Vec<Scenario> {
                     finish(h, r, |x| format!("{x:?}"))
                 }) });
             }
+            // sessions: open, look every id up twice, then re-write into a plain cursor; every call's result is kept
+            let b = bytes.clone();
+            let p = probes.clone();
+            v.push(Scenario { name: format!("session/{which}/{n}/sync"), is_async: false, role: Role::Reader, heavy: false, faults: true, run: Box::new(move |ch| {
+                let h = Handle::new(b.clone(), ch);
+                let mut parts: Vec<(String, Result<String, String>)> = Vec::new();
+                let r = catch(|| {
+                    match PMTiles::from_reader(h.sync()) {
+                        Ok(mut pm) => {
+                            parts.push(("open".into(), Ok(format!("{} tiles", pm.num_tiles()))));
+                            for pass in 1..=2 {
+                                for id in p.iter() {
+                                    parts.push((format!("get-{id}#{pass}"), pm.get_tile_by_id(*id).map(|o| format!("{o:?}")).map_err(|e| e.to_string())));
+                                }
+                            }
+                            let mut out = std::io::Cursor::new(Vec::new());
+                            parts.push(("rewrite".into(), pm.to_writer(&mut out).map(|_| crate::report::hex(out.get_ref())).map_err(|e| e.to_string())));
+                        }
+                        Err(e) => parts.push(("open".into(), Err(e.to_string()))),
+                    }
+                    Ok(())
+                });
+                let (mut o, h) = finish(h, r, |_| "session".into());
+                o.parts = parts;
+                (o, h)
+            }) });
+            let b = bytes.clone();
+            let p = probes.clone();
+            v.push(Scenario { name: format!("session/{which}/{n}/async"), is_async: true, role: Role::Reader, heavy: false, faults: true, run: Box::new(move |ch| {
+                let h = Handle::new(b.clone(), ch);
+                let mut parts: Vec<(String, Result<String, String>)> = Vec::new();
+                let r = catch(|| {
+                    match block_on(PMTiles::from_async_reader(h.asyn())) {
+                        Ok(mut pm) => {
+                            parts.push(("open".into(), Ok(format!("{} tiles", pm.num_tiles()))));
+                            for pass in 1..=2 {
+                                for id in p.iter() {
+                                    parts.push((format!("get-{id}#{pass}"), block_on(pm.get_tile_by_id_async(*id)).map(|o| format!("{o:?}")).map_err(|e| e.to_string())));
+                                }
+                            }
+                            let mut out = futures::io::Cursor::new(Vec::new());
+                            parts.push(("rewrite".into(), block_on(pm.to_async_writer(&mut out)).map(|_| crate::report::hex(out.get_ref())).map_err(|e| e.to_string())));
+                        }
+                        Err(e) => parts.push(("open".into(), Err(e.to_string()))),
+                    }
+                    Ok(())
+                });
+                let (mut o, h) = finish(h, r, |_| "session".into());
+                o.parts = parts;
+                (o, h)
+            }) });
             // read_directories utility on the same bytes
             let b = bytes.clone();
             v.push(Scenario { name: format!("read-directories/{which}/{n}/sync"), is_async: false, role: Role::Reader, heavy: false, faults: true, run: Box::new(move |ch| {
